@@ -141,7 +141,7 @@ def build_frames(case):
                 position=tuple(k / 8 for k in o["pos8"]),
                 orientation=qo,
                 shape=Shape(ShapeType.BOUNDING_BOX, (1.0 + (tag % 5) / 4, 1.0 + (tag % 3) / 2, 1.5)),
-                velocity=None if case.get("vel_none") else tuple(k / 8 for k in o["vel8"]),
+                velocity=None if case.get("vel_none") or o.get("vnone") else tuple(k / 8 for k in o["vel8"]),
                 semantic_score=1.0, semantic_label=Label(AutowareLabel.CAR, "car"),
                 pointcloud_num=tag, uuid=o["id"]))
             tag += 1
@@ -214,7 +214,7 @@ def observe(frames, call):
 # ------------------------------------------------------------------------------------------------
 # generators
 # ------------------------------------------------------------------------------------------------
-IDS = ["a", "b", "c", "d", "e", "f"]
+IDS = ["a", "b", "ab", "ba", "c", "abc"]      # some ids are prefixes / substrings of others: pairing is by EQUAL uuid
 YAW_EGOS = [[1, 0, 0, 0], [2, 0, 0, 1], [3, 0, 0, -1], [1, 0, 0, 1], [4, 0, 0, 3], [5, 0, 0, -2], [7, 0, 0, 1], [-3, 0, 0, 2],
             [1, 0, 0, 3], [6, 0, 0, 5], [-5, 0, 0, -1], [9, 0, 0, 2]]
 
@@ -465,6 +465,16 @@ class LookupCorr(Corr):
                 for f in c["frames"]:
                     for o in f["objs"]:
                         o["vel8"] = [0, 0, 0]
+        # ... and time lines where only SOME objects lack a velocity, so that an object pairs a neighbour with and one without a velocity
+        # (either side); the property text is silent about the velocity of such a pair: anything but an exception is accepted
+        for k, c in enumerate(out):
+            if c.get("stream") in ("typical", "boundary") and k % 6 == 4:
+                c["vel_mixed"] = True
+                for f in c["frames"]:
+                    for o in f["objs"]:
+                        if rng.random() < 0.35:
+                            o["vnone"] = True
+                            o["vel8"] = [0, 0, 0]
         # input representations: frame ids of the objects spelled as strings; the transform list the loader attaches
         for k, c in enumerate(out):
             if c.get("stream") in ("typical", "boundary", "witness"):
@@ -572,10 +582,12 @@ class LookupCorr(Corr):
         if k == "frame":
             return f"(OFrame {o['index']})"
         if k == "error":
-            return f"(OError {ERRORS[o['type']]})"
+            return f"(OError {ERRORS.get(o['type'], 'ErrEmpty')})"
         objs = []
         for x in o["objs"]:
             pt, vt = self._exactness(case, x, t)
+            if x.get("vel_none") and not case.get("vel_none"):
+                vt = 10 ** 6          # a pair with one missing velocity: the model (zero velocity for the missing one) is not compared
             uid = NONE_ID if x["id"] is None else x["id"]
             yaw = f"(Some {qlit(x['yaw'])}%Q)" if yawok else "None"
             objs.append(f"(mkOObj {slit(uid)} {zlit(x['tag'])} {zlit(x['time'])} {'true' if x['frame'] == 'map' else 'false'} "
@@ -711,8 +723,9 @@ class LookupCorr(Corr):
                     p2, y2 = global_pos(fa, o2), global_yaw(fa, o2)
                     if x["time"] != t:
                         return f"object {k} ({x['id']}) is stamped {x['time']}, not the query time"
-                    if bool(x.get("vel_none")) != bool(case.get("vel_none")):
-                        return f"object {k} ({x['id']}): velocity is {'None' if x.get('vel_none') else 'a vector'} although both neighbours carry {'none' if case.get('vel_none') else 'one'}"
+                    n_none = sum(1 for z in (o1, o2) if case.get("vel_none") or z.get("vnone"))
+                    if n_none != 1 and bool(x.get("vel_none")) != (n_none == 2):
+                        return f"object {k} ({x['id']}): velocity is {'None' if x.get('vel_none') else 'a vector'} although both neighbours carry {'none' if n_none else 'one'}"
                     if x["size"] != [1.0 + (x["tag"] % 5) / 4, 1.0 + (x["tag"] % 3) / 2, 1.5]:
                         return f"object {k} ({x['id']}): size {x['size']} is not the size of the object it derives from (tag {x['tag']})"
                     for c in range(3):
@@ -724,7 +737,7 @@ class LookupCorr(Corr):
                             return (f"object {k} ({x['id']}) pos[{c}]={x['pos'][c]} is not on the segment at the proportional time "
                                     f"(alpha={float(al)}): expected {float(want)}")
                         wv = (1 - al) * Fraction(o1["vel8"][c], 8) + al * Fraction(o2["vel8"][c], 8)
-                        if abs(Fraction(x["vel"][c]) - wv) > Fraction(POS_TOL):
+                        if n_none != 1 and abs(Fraction(x["vel"][c]) - wv) > Fraction(POS_TOL):
                             return f"object {k} ({x['id']}) vel[{c}]={x['vel'][c]} expected {float(wv)}"
                     if yawok:
                         d = wrap1(y2 - y1)
@@ -745,7 +758,7 @@ class LookupCorr(Corr):
             # kept singleton: unchanged apart from the conversion to the map frame
             if x["size"] != [1.0 + (x["tag"] % 5) / 4, 1.0 + (x["tag"] % 3) / 2, 1.5]:
                 return f"kept object {k} ({x['id']}): size {x['size']} changed"
-            if bool(x.get("vel_none")) != bool(case.get("vel_none")):
+            if bool(x.get("vel_none")) != bool(case.get("vel_none") or src.get("vnone")):
                 return f"kept object {k} ({x['id']}): velocity None-ness changed"
             p = global_pos(fsrc, src)
             for c in range(3):
@@ -824,7 +837,9 @@ class LookupCorr(Corr):
              "now": {}, "interp": {}, "not_time_ordered": 0, "yaw_checked_timelines": 0,
              "tolerance_equal_to_dt": 0, "nearest_ties": 0, "alpha_zero_interpolations": 0,
              "paired_objects": 0, "kept_before_only": 0, "kept_after_only": 0, "manager_differs_from_function": 0,
-             "inputs_unchanged": 0, "timelines_without_velocities": 0, "timelines_with_string_frame_ids": 0,
+             "inputs_unchanged": 0, "timelines_without_velocities": 0, "timelines_where_some_objects_lack_a_velocity": 0,
+             "interpolated_pairs_with_one_missing_velocity": 0, "interpolations_whose_common_ids_are_listed_in_another_relative_order": 0,
+             "interpolations_pairing_ids_that_are_substrings_of_other_ids_present": 0, "timelines_with_string_frame_ids": 0,
              "timelines_with_loader_transform_lists": {}, "queries_repeated_in_another_number_type": {},
              "interpolated_frames_whose_sensor2map_follows_the_interpolated_ego": {"yes": 0, "no (kept from the before frame)": 0}, "query_before_first": 0, "query_after_last": 0, "query_on_frame": 0}
         for c, o in zip(cases, obs):
@@ -837,6 +852,7 @@ class LookupCorr(Corr):
             d["yaw_checked_timelines"] += 1 if case_yawok(c) else 0
             d["inputs_unchanged"] += 1 if o["inputs_unchanged"] else 0
             d["timelines_without_velocities"] += bool(c.get("vel_none"))
+            d["timelines_where_some_objects_lack_a_velocity"] += bool(c.get("vel_mixed"))
             d["timelines_with_string_frame_ids"] += bool(c.get("str_frames"))
             if c.get("sensor_tf"):
                 k = c["sensor_tf"]["order"]
@@ -870,6 +886,15 @@ class LookupCorr(Corr):
                         ids_b = [z["id"] for z in c["frames"][b]["objs"]]
                         ids_a = [z["id"] for z in c["frames"][a]["objs"]]
                         d["paired_objects"] += sum(1 for i in ids_b if i in ids_a)
+                        common_b = [i for i in ids_b if i in ids_a]
+                        common_a = [i for i in ids_a if i in ids_b]
+                        d["interpolations_whose_common_ids_are_listed_in_another_relative_order"] += common_a != common_b
+                        every = [i for i in ids_b + ids_a if isinstance(i, str)]
+                        d["interpolations_pairing_ids_that_are_substrings_of_other_ids_present"] += any(
+                            isinstance(i, str) and any(i != j and i in j for j in every) for i in common_b)
+                        vb = {z["id"]: bool(z.get("vnone")) for z in c["frames"][b]["objs"]}
+                        va = {z["id"]: bool(z.get("vnone")) for z in c["frames"][a]["objs"]}
+                        d["interpolated_pairs_with_one_missing_velocity"] += sum(1 for i in common_b if vb[i] != va[i])
                         d["kept_before_only"] += sum(1 for i in ids_b if i not in ids_a)
                         d["kept_after_only"] += max(len(q["interp"]["objs"]) - len(ids_b), 0)
         d["runtime_observations"] = {"lookups_left_the_loaded_frames_unmodified": d["inputs_unchanged"] == d["timelines"]}
@@ -880,7 +905,7 @@ class C17(Prop):
     id = "C17"
     props_file = "Props/C17.v"
     # redundant tie (core.gen_tie): these functions, translated from the source on every run, equal the hand model for all inputs
-    gen_tie_theorems = ["GenTie_get_now_frame", "GenTie_get_now_frame_outside", "GenTie_neighbour_search"]
+    gen_tie_theorems = ['GenTie_get_now_frame', 'GenTie_get_now_frame_outside', 'GenTie_neighbour_search', 'GenTie_interpolate_object_list', 'GenTie_interpolate_list', 'GenTie_interpolate_list_outside', 'GenTie_interpolate_quaternion', 'GenTie_interpolate_quaternion_outside', 'GenTie_interpolate_state', 'GenTie_interpolate_state_outside', 'GenTie_interpolate_dynamic_object', 'GenTie_get_interpolated_now_frame', 'GenTieSrc_C17_get_now_frame_is_nearest_within_tol']
     extra_props_files = ["Props/C17Slerp.v"]
     # the slerp theorems are about Coq's axiomatised real numbers: exactly these standard-library axioms, for that file only
     allowed_axioms = {"Props/C17Slerp.v": ["ClassicalDedekindReals.sig_not_dec", "ClassicalDedekindReals.sig_forall_dec",
@@ -915,7 +940,9 @@ class C17(Prop):
                   "Exactly opposite orientations (non-unique shortest arc) are excluded from the generated inputs.")
     rule = ("per time line (1-30 frames quick / 1-40 thorough; real objects, k/8 lattice, integer us stamps, ids appearing/disappearing, "
             "yaw-only or general rational ego quaternions): queries before/on/next to/between/after frames with tolerances equal to each "
-            "|dt| and +-1; every 6th time line without velocities; every 5th with the objects' frame ids spelled as strings (as the library "
+            "|dt| and +-1; object ids of which some are prefixes / substrings of others (a, ab, abc, ba), the common ids of two neighbours "
+            "listed in different relative orders (counted); every 6th time line without velocities; every 6th with SOME objects lacking a "
+            "velocity, so that a pair has a velocity on one side only (either side; oracle: anything but an exception); every 5th with the objects' frame ids spelled as strings (as the library "
             "leaves them on interpolated frames); two thirds with the transform list the loader attaches (ego2map, LIDAR_TOP->BASE_LINK, "
             "LIDAR_TOP->MAP, in the loader's order or sensor first); every 3rd query repeated with the same numbers as float / numpy integer "
             "(oracle: same answer); non-trivial = time line with >= 2 frames whose queries produced at least 3 different result kinds")
